@@ -29,6 +29,22 @@ static void do_fp()
     }
     printf("\nout");
     for (size_t i = 0; i < tot; i++) pf(steps ? out->getData()[i] : in->getData()[i]);
+    // The step has no input but data_in and the stencil table (C04_fp_apply_column_local): whatever else the input grid holds -
+    // cached bunch / energy profile, integral, filling, moments, all of which main() refreshes for grid_t1 only, never for the
+    // grid the Fokker-Planck map reads - must not matter.  Apply once more with those caches zeroed and count the cells that differ.
+    if (steps) {
+        std::vector<meshdata_t> ref(out->getData(), out->getData() + tot);
+        std::fill(in->_projection.data(), in->_projection.data() + in->_projection.num_elements(), 0);
+        std::fill(in->_moment.data(), in->_moment.data() + in->_moment.num_elements(), 0);
+        std::fill(in->_rms.data(), in->_rms.data() + in->_rms.num_elements(), 0);
+        std::fill(in->_filling.begin(), in->_filling.end(), 0);
+        in->_integral = 0;
+        fpm.apply();
+        size_t nd = 0, first = 0;
+        for (size_t i = 0; i < tot; i++)
+            if (std::memcmp(&ref[i], &out->getData()[i], sizeof(meshdata_t)) != 0) { if (!nd) first = i; nd++; }
+        printf("\ncachedep %zu %zu", nd, first);
+    }
     printf("\nend\n");
 }
 
